@@ -3,6 +3,7 @@ package rules
 import (
 	"fmt"
 	"go/ast"
+	"go/token"
 	"sort"
 	"strings"
 
@@ -17,6 +18,7 @@ func C07(c *Ctx) {
 	r.Assumptions = []string{"StronglyConnectedComponents computes SCCs (tested by the repository's unit tests on fixed graphs)"}
 	r.Rule("C07-i", "InitialNames of each kind includes, on every path, the InitialNames of every operand evaluated at the start position (table in DESIGN.md §3 C07)")
 	r.Rule("C07-n", "NullableVisit / IsNullable of each kind return the value required by the table (constant, any-of, all-of, operand's) and keep the stored flag equal to the returned value")
+	r.Rule("C07-v", "IsNullable reads flags that only NullableVisit stores, and InitialNames consults IsNullable of sequence items: therefore NullableVisit of a kind must visit (call NullableVisit on) every operand whose InitialNames the kind's own InitialNames includes, on every path — a constant result or a short-circuit must not skip the visit")
 	r.Rule("C07-b", "buildParser: `if !b.supportLeftRecursion && haveLeftRecursion { return error wrapping ErrHaveLeftRecursion }` precedes every write; PrepareGrammar = ComputeNullables then ComputeLeftRecursives; MakeFirstGraph stores rule.InitialNames() for every rule; ComputeLeftRecursives marks every member of an SCC of size > 1 and every self-loop and reports haveLeftRecursion for both")
 
 	g := c.G()
@@ -57,6 +59,7 @@ func C07(c *Ctx) {
 		}
 		c07Initial(c, g, k.Name, in, sp.initial)
 		c07Nullable(c, g, k.Name, nv, isn, sp.null)
+		c07Visits(c, g, k.Name, nv, sp.initial)
 	}
 	r.MinRule("C07-i", 18)
 	r.MinRule("C07-n", 18)
@@ -501,5 +504,110 @@ func c07Wiring(c *Ctx, g *load.G) {
 		r.Check(ok && selfLoop, "C07-b", "G.builder.ComputeLeftRecursives:marks", "", g.Where(cl.Pos()), "members of SCCs with more than one rule and self-loops are marked and reported", "marks: "+joined+fmt.Sprintf(" self-loop-test=%t", selfLoop))
 	} else {
 		r.Fatal("anchor builder.ComputeLeftRecursives not found")
+	}
+}
+
+// c07Visits: NullableVisit must visit every operand that InitialNames includes (see rule C07-v).
+func c07Visits(c *Ctx, g *load.G, kind string, nv *ast.FuncDecl, need []string) {
+	r := c.R
+	recv := recvName(nv)
+	construct := "G.ast." + kind + ".NullableVisit:visits-operands"
+	w := g.Where(nv.Pos())
+	var bad []string
+	n := 0
+	// a visit call is unconditional when it is not under an if, not the right operand of || / &&, and not after an
+	// earlier return in a loop
+	unconditionalCall := func(scope *ast.BlockStmt, call string) bool {
+		found := false
+		var stack []ast.Node
+		ast.Inspect(scope, func(nd ast.Node) bool {
+			if nd == nil {
+				stack = stack[:len(stack)-1]
+				return true
+			}
+			stack = append(stack, nd)
+			ce, ok := nd.(*ast.CallExpr)
+			if !ok || nospace(ce) != call {
+				return true
+			}
+			okPath := true
+			for i := len(stack) - 2; i >= 0; i-- {
+				switch p := stack[i].(type) {
+				case *ast.BinaryExpr:
+					if (p.Op == token.LOR || p.Op == token.LAND) && contains(p.Y, ce.Pos()) {
+						okPath = false
+					}
+				case *ast.IfStmt:
+					if contains(p.Body, ce.Pos()) || (p.Else != nil && contains(p.Else, ce.Pos())) {
+						okPath = false
+					}
+				}
+			}
+			if okPath {
+				found = true
+			}
+			return true
+		})
+		return found
+	}
+	for _, f := range need {
+		switch {
+		case strings.HasPrefix(f, "="):
+			continue
+		case strings.HasPrefix(f, "*"):
+			// every element visited: a range over the field whose body calls elem.NullableVisit unconditionally and
+			// never leaves the loop early
+			n++
+			field := f[1:]
+			var loop *ast.RangeStmt
+			for _, st := range nv.Body.List {
+				if rs, ok := st.(*ast.RangeStmt); ok && nospace(rs.X) == recv+"."+field && rs.Value != nil {
+					loop = rs
+				}
+			}
+			if loop == nil {
+				bad = append(bad, "no loop visiting "+field)
+				continue
+			}
+			elem := nospace(loop.Value)
+			early := false
+			ast.Inspect(loop.Body, func(nd ast.Node) bool {
+				switch x := nd.(type) {
+				case *ast.ReturnStmt:
+					early = true
+				case *ast.BranchStmt:
+					if x.Tok == token.BREAK {
+						early = true
+					}
+				}
+				return true
+			})
+			visits := false
+			ast.Inspect(loop.Body, func(nd ast.Node) bool {
+				if ce, ok := nd.(*ast.CallExpr); ok && nospace(ce) == elem+".NullableVisit(rules)" {
+					visits = true
+				}
+				return true
+			})
+			if !visits || early {
+				bad = append(bad, "the loop over "+field+" stops at the first nullable element: the remaining elements are never visited, their stored Nullable flags stay false, and InitialNames of a sequence inside them stops too early (A <- &'q' / B A; B <- 'y'? is accepted)")
+			}
+		case strings.HasPrefix(f, "<"):
+			continue // a sequence only needs the items up to the first non-nullable one, which its loop visits in order
+		default:
+			n++
+			if !unconditionalCall(nv.Body, recv+"."+f+".NullableVisit(rules)") {
+				bad = append(bad, "operand "+f+" is not visited on every path: the Nullable flags stored inside it stay false, so InitialNames of a sequence inside it stops too early (A <- (B A)? \"x\"; B <- \"y\"? is accepted)")
+			}
+		}
+	}
+	if n == 0 {
+		return
+	}
+	sort.Strings(bad)
+	if len(bad) > 0 {
+		r.Bad("C07-v", construct, "", w, strings.Join(bad, "; "))
+	} else {
+		r.Ok("C07-v", construct, "", w, fmt.Sprintf("%d operands visited on every path", n))
 	}
 }
